@@ -1623,7 +1623,7 @@ impl Property for C14 {
                     let span = n + 1 - lo;
                     for (i, d) in ns.iter_mut().enumerate() {
                         let t = lo + (code as usize / 3 + i) % span;
-                        d.weak.push(WeakE { to: Some(t), pos: [WPos::Map, WPos::Seq, WPos::Up, WPos::Map][(code as usize / 2 + i) % 4] });
+                        d.weak.push(WeakE { to: Some(t), pos: [WPos::Map, WPos::Seq, WPos::Map, WPos::Seq, WPos::Map, WPos::Seq, WPos::Up][(code as usize / 2 + i) % 7] });
                         let t2 = lo + (code as usize / 5 + 3 * i + 1) % span;
                         d.weak.push(WeakE { to: Some(t2), pos: WPos::Seq });
                         if i > 0 && (code as usize + i) % 3 == 0 {
@@ -1721,7 +1721,7 @@ impl Property for C14 {
         ctx.subspace("shapes with 3 allocations x every single weak edge (incl. dangling / wrapped root) x 4 kinds x all positions", total, true);
 
         // --- random graphs, sharing probability swept ---------------------------------------------
-        let n = ctx.tier.pick(3_000, 60_000);
+        let n = ctx.tier.pick(1_000, 20_000);
         let mut stream = 1;
         for &p in &[0.0, 0.1, 0.25, 0.5, 0.75, 1.0] {
             for kind in [Kind::RcDag, Kind::ArcDag] {
@@ -1744,7 +1744,7 @@ impl Property for C14 {
         if thorough {
             for kind in [Kind::RcDag, Kind::ArcDag, Kind::RcRec, Kind::ArcRec] {
                 let s = random_graph(kind, 0.5, 24, 60, 20);
-                ctx.run_strategy("random-large", stream, 20_000, &s, &note);
+                ctx.run_strategy("random-large", stream, 8_000, &s, &note);
                 stream += 1;
             }
         }
